@@ -712,6 +712,8 @@ func rulePreviousSchemasPositional(c *core.Ctx) {
 }
 
 var methodHeaderRe = regexp.MustCompile(`^\s*(def |function |VAR:signature)|::(%s|[A-Za-z]+)\([^;]*\{\s*$`)
+var writeHeaderRe = regexp.MustCompile(`def write_|function write_|::Write`)
+var stateAssignRe = regexp.MustCompile(`(_state|state_)\s*=[^=]`)
 var stateVarRe = regexp.MustCompile(`(^|[^A-Za-z0-9])(_state|state_)([^A-Za-z0-9_]|$)`)
 var stateCmpRe = regexp.MustCompile(`(_state|state_)\s*(&\s*~1\s*)?(!=|~=|==)`)
 var plainReturnRe = regexp.MustCompile(`(^|[^A-Za-z_])return([^A-Za-z_]|$)`)
@@ -886,6 +888,30 @@ func ruleNoReturnBeforeStateGuard(c *core.Ctx) {
 					c.Bad(rule, key, emits[bad].Pos, "`"+strings.TrimSpace(emits[bad].Tmpl)+"` is emitted in front of the state check of this method: the call is accepted (and silently does nothing) in any protocol state, including before earlier steps and after Close")
 				} else {
 					c.OK(rule, key, hdr.Pos, "the first thing the method does with control flow is the state check")
+				}
+				// a WRITE method that passed the check records the step before it can return: a `return` between the
+				// check and the first assignment of the state leaves a step that was accepted unrecorded
+				if writeHeaderRe.MatchString(hdr.Tmpl) || (len(hdr.Args) > 0 && strings.Contains(strings.Join(hdr.Args, " "), "Write")) {
+					// the LAST assignment records the step itself (an earlier one may close the previous stream)
+					firstAssign := -1
+					for i := firstCmp + 1; i < sp.to; i++ {
+						if stateAssignRe.MatchString(emits[i].Tmpl) {
+							firstAssign = i
+						}
+					}
+					if firstAssign > 0 {
+						bad2 := -1
+						for i := firstCmp + 1; i < firstAssign; i++ {
+							if plainReturnRe.MatchString(emits[i].Tmpl) {
+								bad2 = i
+							}
+						}
+						if bad2 >= 0 {
+							c.Bad(rule, key+"/recorded", emits[bad2].Pos, "`"+strings.TrimSpace(emits[bad2].Tmpl)+"` is emitted between the state check and the assignment that records the step: a call that was accepted leaves the state where it was, so the next in-order call (or close) is rejected and the stream's end marker is never written")
+						} else {
+							c.OK(rule, key+"/recorded", hdr.Pos, "nothing returns between the state check and the assignment of the new state")
+						}
+					}
 				}
 			}
 		}
